@@ -15,7 +15,7 @@ CONSTANTS
   OwnEntry = TRUE
   ChkCompare = TRUE
   ApplyDropFrame = FALSE
-  Wire = 2
+  Wire = 1
   Emit = "final"
 VIEW view
 INVARIANTS ChkIsImage OnHistory FilterRespected NoFrameOutsideFilter QuiescentConverged DropFollows EmitInv
